@@ -441,21 +441,36 @@ def yearlyShare (rows : List (Int × Option Date × Option Date)) (year : Nat) :
 
 def dedup (l : List Nat) : List Nat := l.foldl (fun acc x => if acc.contains x then acc else acc ++ [x]) []
 
-/-- `get_annual_emissions_at_all_sites_with_extrapolation` -/
-def extrapolated (rows : List EstRow) (year : Nat) : Rat :=
-  let sites := dedup (rows.map (·.site))
-  let info : List (Nat × Nat × Bool × Rat) := sites.map fun s =>
+/-- one site of an estimate file for one year: (site, site type, measured?, annual value) -/
+abbrev SiteInfo := Nat × Nat × Bool × Rat
+
+/-- the measured sites -/
+def measuredSites (info : List SiteInfo) : List SiteInfo := info.filter fun x => x.2.2.1
+
+/-- what a site contributes to the extrapolated total: its own annual value if it was measured;
+else the average over the measured sites of its own type; if no site of its type was measured, the
+average over ALL measured SITES (not the average of the per-type averages); 0 if nothing was
+measured (pandas skips the NaN in the final sum) -/
+def contribution (info : List SiteInfo) (x : SiteInfo) : Rat :=
+  if x.2.2.1 then x.2.2.2
+  else
+    let same := (measuredSites info).filter fun y => y.2.1 == x.2.1
+    if same.isEmpty then
+      (if (measuredSites info).isEmpty then 0 else meanR ((measuredSites info).map (·.2.2.2)))
+    else meanR (same.map (·.2.2.2))
+
+def extrapolateInfo (info : List SiteInfo) : Rat := sumR (info.map (contribution info))
+
+/-- per-site annual values, type and measured flag of an estimate file -/
+def siteInfo (rows : List EstRow) (year : Nat) : List SiteInfo :=
+  (dedup (rows.map (·.site))).map fun s =>
     let g := rows.filter fun r => r.site == s
     let first := g.head?
     (s, (first.map (·.stype)).getD 0, (first.map (·.measured)).getD false,
       yearlyShare (g.map fun r => (r.vol, r.start, r.stop)) year)
-  let meas := info.filter fun x => x.2.2.1
-  let allAvg : Option Rat := if meas.isEmpty then none else some (meanR (meas.map (·.2.2.2)))
-  sumR (info.map fun x =>
-    if x.2.2.1 then x.2.2.2
-    else
-      let same := meas.filter fun y => y.2.1 == x.2.1
-      if same.isEmpty then allAvg.getD 0 else meanR (same.map (·.2.2.2)))
+
+/-- `get_annual_emissions_at_all_sites_with_extrapolation` -/
+def extrapolated (rows : List EstRow) (year : Nat) : Rat := extrapolateInfo (siteInfo rows year)
 
 def col4 (rows : List (Int × Int × Int × Int)) (i : Nat) : List Int :=
   rows.map fun r => match i with | 0 => r.1 | 1 => r.2.1 | 2 => r.2.2.1 | _ => r.2.2.2
